@@ -367,11 +367,31 @@ class Unit:
         return a, b
 
     def fragment(self, relpath, cname, start_re, end_re, params, ret='void', cls=None, locals_=None,
-                 include_end=False, rules=(), epilogue='', prologue='', is_static=True, using_ns=()):
+                 include_end=False, rules=(), epilogue='', prologue='', is_static=True, using_ns=(), tsubst=None, within=None, within_kw=None):
         """Pull the statements between two anchors as the body of a generated function.
         params: list of (C++ type, name, is_ref)."""
         s = self.src(relpath)
-        ft = find_fragment(s, start_re, end_re, include_end)
+        if within:
+            # anchors are searched inside the body of the named function only (each must match exactly once there)
+            outer = find_function(s, within, **(within_kw or {}))
+            ms = list(re.finditer(start_re, outer.body))
+            if len(ms) != 1:
+                raise ExtractError('fragment start anchor %r matches %d times inside %s' % (start_re, len(ms), within))
+            rest = outer.body[ms[0].start():]
+            if end_re is None:
+                frag = rest
+            else:
+                me = list(re.finditer(end_re, rest))
+                if len(me) != 1:
+                    raise ExtractError('fragment end anchor %r matches %d times inside %s after the start' % (end_re, len(me), within))
+                frag = rest[:me[0].end() if include_end else me[0].start()]
+            ft = FuncText()
+            ft.body = frag
+            ft.line0 = outer.line0 + outer.body[:ms[0].start()].count('\n')
+            ft.line1 = ft.line0 + frag.count('\n')
+            ft.src = s
+        else:
+            ft = find_fragment(s, start_re, end_re, include_end)
         ft.params = ''
         ft.body = prologue + ft.body + epilogue
         ps = [Param(t, n, r) for (t, n, r) in params]
@@ -379,7 +399,7 @@ class Unit:
         f.ft = ft
         f.qual = cname
         f.is_ctor = False
-        f.tsubst = {}
+        f.tsubst = dict(tsubst or {})
         f.rules = list(rules)
         f.extra_locals = locals_ or {}
         f.relpath = relpath
